@@ -2,8 +2,9 @@
 (* C02 / C08 / C19 - binds recorded runs of mpr_intersection / mpr_penetration on lattice polytopes to the
    explorer Mpr.  A recording proxy around both colliders logs center() and every support evaluation, so the
    trace holds v0 and the support point w = p - q of each evaluation.  The trace spec re-executes the model with
-   the logged points (the mode and max_iterations of each scene are trace fields, compared with the constants of
-   the run: one TLC run per (mode, max_iterations)):
+   the logged points (the mode, max_iterations and scale of each scene are trace fields, compared with the constants of
+   the run: one TLC run per (mode, max_iterations, scale); scale 7 = the scene multiplied by 2^-7, exact in binary floating
+   point, logged points multiplied back - the model then applies the absolute portal tolerance, see TolNum in Mpr.tla):
      scene   D, v0
      iter    w must be a maximiser of n . x over D and the model must still be running, then StepW(w)
      result  property clauses, decided on D alone:
@@ -27,7 +28,7 @@ TScene == /\ Is("scene")
           /\ D' = SetOfPts(Ev.D) /\ P' = <<Vec3(Ev.c), Zero3, Zero3, Zero3>>
           /\ n' = Neg(IF Vec3(Ev.c) = Zero3 THEN <<1, 0, 0>> ELSE Vec3(Ev.c))
           /\ ph' = "ray" /\ st' = "run" /\ why' = "" /\ it' = 0 /\ capped' = FALSE
-          /\ off' = (Ev.mode # Mode \/ Ev.maxit # MaxIter)
+          /\ off' = (Ev.mode # Mode \/ Ev.maxit # MaxIter \/ (Ev.scale = 0) # (TolNum = 0))
 TIter  == /\ Is("iter")
           /\ LET w == Vec3(Ev.w) IN
              IF ~off /\ st = "run" /\ w \in ArgMax(D, n)
